@@ -71,6 +71,9 @@ func c13Size(r *fw.Rand, mtu int) int {
 	if r.Chance(1, 40000) {
 		s = r.Pick(65535, 65536, 65537, 66000) // more than 65535 packets at tiny MTUs
 	}
+	if mtu >= 1000 && r.Chance(1, 4000) {
+		s = r.Pick(1<<21-2, 1<<21-1, 1<<21, 1<<21+1) // the size written in front of the reassembled OBU needs four LEB128 bytes
+	}
 	return s
 }
 
